@@ -1003,10 +1003,31 @@ def tie_damaged(ctx: C.Ctx, dc: Dict[str, Any], bufsiz: int) -> None:
             end = data.find(b"endobj", m.start()) + 6
             lines.append(f"obj {m.start()} {int(m.group(1))} {int(m.group(2))} p1")
             lines.append(f"end {m.start()} {end}")
+        # the body as items (plain lines / objects) up to the trailer line: hypothesis of C02_fallback
+        heads = {m.start(): m for m in re.finditer(rb"(?:(?<=[\r\n])|^)(\d+) (\d+) obj", data)}
+        line_re = re.compile(rb"[^\r\n]*(?:\r\n|\r|\n)")
+        pos = 0
+        tr_line = None
+        while pos < len(data):
+            lm = line_re.match(data, pos)
+            if lm is None:
+                break
+            ln = lm.group(0)
+            if ln.startswith(b"trailer"):
+                tr_line = pos
+                break
+            if pos in heads:
+                end = data.find(b"endobj", pos) + 6
+                lines.append("item o %d %d %s %s" % (int(heads[pos].group(1)), int(heads[pos].group(2)),
+                                                   C.hx(ln), C.hx(data[pos + len(ln):end])))
+                pos = end
+            else:
+                lines.append("item l " + C.hx(ln))
+                pos = lm.end()
         nset = len(lines)
         sx = data.rfind(b"startxref")
         xr = data.rfind(b"xref", 0, sx)
-        q = ["q.fallback"]
+        q = ["q.fallback", "q.itemsok"]
         is_kw = data[xr:xr + 4] == b"xref" and dc["damage"] != "xref-keyword"
         if is_kw:
             q.append(f"q.table {xr + 4}")
@@ -1021,8 +1042,11 @@ def tie_damaged(ctx: C.Ctx, dc: Dict[str, Any], bufsiz: int) -> None:
         model_fb = fb.split(" ", 2)[2] if fb.startswith("ok ") and fb.count(" ") >= 2 else fb
         if impl_fb != model_fb:
             ctx.disagree("q.fallback", inp, impl_fb, fb)
+        ctx.branch("hyp:itemsOK:" + out[nset + 1].replace(" ", ","))
+        if out[nset + 1] != "true true true true":
+            ctx.disagree("q.itemsok", inp, "true true true true", out[nset + 1])
         if is_kw:
-            tb = out[nset + 1]
+            tb = out[nset + 2]
             impl_tb = table_impl(data, xr, bufsiz)
             ctx.branch("tie:q.table-damaged:" + ("ok" if tb.startswith("ok") else "error"))
             model_tb = tb.split(" ", 2)[2] if tb.startswith("ok ") and tb.count(" ") >= 2 else tb
